@@ -5,6 +5,24 @@ ROOT = os.path.dirname(os.path.dirname(os.path.abspath(__file__)))
 
 # id -> (technique, level text, level note, design ref)
 CHECKS = {
+ "C03": ("reference-model monitor: union-find/rational definitions vs the serialised table, all 2^E subsets per graph",
+         "For each of ~2e4 (quick) / 5e5 (thorough) random multigraphs (self-loops, parallel edges, disconnected, arbitrary labels, untouched externals, all mass patterns, D=1..6) every one of the 2^E table entries is compared with definitions evaluated by an independent union-find / exact-rational oracle; per graph the check is exhaustive, over graphs it is sampled.",
+         "table index <-> subset bit convention as documented; tolerance 8*E*eps*(sum w + D*E/2) on dod (exact for dyadic weights)", "§5 C03"),
+ "C04": ("reference-model monitor: exact rational J recursion and independent Gamma vs the serialised table",
+         "J of every subset of every accepted graph is compared with an exact BigRational evaluation of the recursion built on the oracle's own degrees of divergence (self-checked against the sum over all E! orderings for E<=6); cached_factor against an independent Lanczos Gamma. Exploration over sampled graphs, exhaustive per graph.",
+         "independent lnGamma accurate to ~1e-14; relative tolerance 64*E*eps (wider for non-dyadic weights)", "§5 C04"),
+ "C05": ("reference-model + metamorphic monitor: exact convergence oracle, rebuild in-process/other thread/other process, subprocess size probes",
+         "Accept/reject verdict of build_sampler compared with the exact rational 'exists a proper subset with dod<=0' on graphs generated on both sides of (and exactly on) the boundary; J finite and positive on Ok; serialisation identical across rebuilds, threads and processes; E=63/64 probed in subprocesses (known finding).",
+         "graphs with |omega|<1e-9 excluded from the iff as the property states; E in 30..58 not probed (allocation failure would be inconclusive)", "§5 C05"),
+ "C12": ("reference-model monitor: independent incomplete-gamma implementation vs inverse_gamma_lr on grids/random (a,p); metamorphic link to Metadata.lambda",
+         "~8e5 (quick) / 8e7 (thorough) (a,p) pairs covering every reachable starting-value branch (counted), p down to 5e-324 and up to 1-2^-53, a within 2.5e-8 of 1; Ok=>finite positive; accuracy 2e-8 where the true quantile >= 1e-13; monotone; no panic; sample lambda bit-identical to the direct call.",
+         "oracle P/Q accurate to ~1e-13 absolute, self-tested at start-up; an oracle self-test failure makes the run inconclusive", "§5 C12"),
+ "C15": ("reference-model monitor: exact rational inverse/determinant vs decompose_for_tropical",
+         "2e4 (quick) / 1e6 (thorough) SPD matrices, n=1..8 evenly, seven families up to kappa_F=1e10; triangular structure, QQ^T=A, factor inverse, inverse and determinant compared with exact rational linear algebra under a 64*n*eps*kappa_F bound; ill-conditioned cases are counted as skipped, never as pass or fail.",
+         "Frobenius condition number from exact arithmetic; observed error/bound reported (max ~0.03 on the unchanged tree)", "§5 C15"),
+ "C16": ("reference-model monitor: exact rational L_2,1 distance recomputed from the returned inverse; hostile matrices and corner-point samples",
+         "2e4 (quick) / 1e6 (thorough) symmetric matrices of twelve families x nine tolerance classes (incl. 0, +inf, NaN, negative) plus samples at xi=0 / 5e-324 / 1e-300 with the test on: Ok => det != 0, and with Some(tol) => no NaN and exact distance <= tol + rounding slack.",
+         "slack covers only the rounding of the code's own norm evaluation; found and fixed two defects (see known_findings.json)", "§5 C16"),
  "C20": ("reference-model monitor, bit-for-bit, on random hostile f64 inputs (+ Miri in thorough)",
          "Every Vector operation (D=1..8) and every f64 MomTropFloat method is executed on ~1e6 (quick) / 1e8 (thorough) hostile inputs and compared bit for bit with plain IEEE loops / std functions. Exploration: held on the inputs run, no more.",
          "trusts rustc's IEEE semantics for the reference loops; NaN payloads not compared", "§5 C20"),
